@@ -332,3 +332,9 @@ mod test_nicknames {
         assert_eq!(res, Ok(true));
     }
 }
+
+#[cfg(precis_verif)]
+#[allow(missing_docs)]
+pub fn verif_find_disallowed_space(label: &str) -> Option<usize> {
+    find_disallowed_space(label)
+}
